@@ -210,9 +210,13 @@ def run_leg_shard(leg: Leg, tier: str, seed: int, shard: int, nshards: int) -> d
         if n > 0:
             strat = leg.strategy(tier)
 
+            # Hypothesis always starts with the minimal example of the strategy: only shard 0 keeps it,
+            # the other shards draw one more example and skip their first one.
+            skip_first = [shard > 0]
+
             @hypothesis.seed(seed * 1000 + shard)
             @settings(
-                max_examples=n,
+                max_examples=n + (1 if shard > 0 else 0),
                 database=None,
                 deadline=None,
                 derandomize=False,
@@ -222,6 +226,9 @@ def run_leg_shard(leg: Leg, tier: str, seed: int, shard: int, nshards: int) -> d
             )
             @given(strat)
             def _t(recipe):
+                if skip_first[0]:
+                    skip_first[0] = False
+                    return
                 rec.handle(leg, recipe)
 
             _t()
